@@ -224,24 +224,71 @@ def bisector(check: Check, info) -> None:
                   f"cumulative sum={has_cum}, minus one half={half}, normalised by the last column={last}, closest={argmin}, mean of tied points={mean}", loc(fn))
 
 
+def _index_vector(t: Term, res: Term) -> str | None:
+    """'ok' when t is the integer index vector 0..resolution-1 (any spelling through range / integer arange), a reason otherwise,
+    None when t is not an index generator at all."""
+    if t[0] == "call" and t[1][0] == "global" and t[1][1] in ("numpy.array", "numpy.asarray", "numpy.fromiter", "list", "tuple", "fuzzylite.library.array",
+                                                             "fuzzylite.library.scalar") and t[2]:
+        return _index_vector(t[2][0], res)
+    if t[0] == "call" and t[1] in (("global", "range"), ("global", "numpy.arange")):
+        a = [x for x in t[2]]
+        if len(a) == 1 and a[0] == res:
+            return "ok"
+        if len(a) == 2 and a[0] == ("const", 0) and a[1] == res:
+            return "ok"
+        if len(a) == 3 and a[0] == ("const", 0) and a[1] == res and a[2] == ("const", 1):
+            return "ok"
+        return f"`{show(t)}` does not enumerate the integers 0..resolution-1 (a floating-point range can yield one point more or less)"
+    if t[0] == "call" and t[1][0] == "global" and t[1][1] in ("numpy.linspace",):
+        return f"`{show(t)}` samples the end points, not the cell indices"
+    return None
+
+
 def midpoints(check: Check) -> None:
+    """S5: Op.midpoints(start, end, resolution) is start + (i + 1/2) * (end - start) / resolution for the integer indices i = 0..resolution-1,
+    compared as a rational-function normal form (so re-association, commuted operands and temporaries are immaterial)."""
+    from ..algebra import Rat
+
     p = check.program
     fn = p.func("Operation.midpoints")
     check.analysed(fn)
     r = Resolver(p, fn)
     rets = [r.term(n.ast.value, n) for n in r.cfg.stmt_nodes() if isinstance(n.ast, ast.Return) and n.ast.value is not None]
     s_, e_, res = [("param", q.name) for q in fn.params[:3]]
-    idx = ("call", ("global", "numpy.array"), (("call", ("global", "range"), (res,), ()),), ())
-    idx2 = ("call", ("global", "numpy.arange"), (res,), ())
-    dx = ("binop", "/", ("binop", "-", e_, s_), res)
-    ok = False
+    problems: list[str] = []
+
+    def nf(t: Term) -> Rat:
+        iv = _index_vector(t, res)
+        if iv is not None:
+            if iv != "ok":
+                problems.append(iv)
+            return Rat.sym("i")
+        if t in (s_, e_, res):
+            return Rat.sym(t[1])
+        if t[0] == "const" and isinstance(t[1], (int, float)) and not isinstance(t[1], bool):
+            from fractions import Fraction
+
+            return Rat.const(Fraction(t[1]).limit_denominator(10 ** 6))
+        if t[0] == "binop" and t[1] in ("+", "-", "*", "/"):
+            a, b = nf(t[2]), nf(t[3])
+            return a + b if t[1] == "+" else (a - b if t[1] == "-" else (a * b if t[1] == "*" else a / b))
+        if t[0] == "unop" and t[1] == "-":
+            return -nf(t[2])
+        if t[0] == "call" and t[1][0] == "global" and t[1][1] in ("fuzzylite.library.scalar", "fuzzylite.library.array", "numpy.asarray", "numpy.array", "float") and len(t[2]) == 1:
+            return nf(t[2][0])
+        raise AnalysisError(f"Operation.midpoints: `{show(t)[:80]}` is outside the normal-form model")
+
+    want = Rat.sym(s_[1]) + (Rat.sym("i") + Rat.const("1/2")) * (Rat.sym(e_[1]) - Rat.sym(s_[1])) / Rat.sym(res[1])
+    ok = bool(rets)
+    shown = ""
     for t in rets:
-        for i in (idx, idx2):
-            half = ("binop", "+", i, ("const", 0.5))
-            for prod in (("binop", "*", half, dx), ("binop", "*", dx, half)):
-                if t in (("binop", "+", s_, prod), ("binop", "+", prod, s_)):
-                    ok = True
-    check.require(ok, "S5", "Operation.midpoints/formula", "midpoints are start + (i + 0.5) * (end - start) / resolution for i = 0..resolution-1" if ok else
-                  f"midpoints are {[show(t) for t in rets]}", loc(fn))
+        got = nf(t)
+        if not got.equals(want):
+            ok = False
+            shown = show(t)
+    if problems:
+        ok = False
+    check.require(ok, "S5", "Operation.midpoints/formula", "midpoints are start + (i + 0.5) * (end - start) / resolution for i = 0..resolution-1 (normal forms equal)" if ok else
+                  (problems[0] if problems else f"midpoints are {shown}, which is not start + (i + 0.5) * (end - start) / resolution"), loc(fn))
     dflt = fn.params[2].default
     check.require(dflt is not None, "S5", "Operation.midpoints/signature", "midpoints(start, end, resolution)", loc(fn))
